@@ -148,10 +148,7 @@ Proof.
     + destruct (is_byte t0); [exact I|]. cbn. split; [exact E'| exact C].
     + cbn. split; [exact E'| exact C].
     + cbn in C. apply andb_prop in C as [_ C2]. cbn. split; [exact E'| exact C2].
-    + destruct (is_named r) eqn:NM; [cbn; split; [exact E'| apply (clean_st_fields _ _ _ C)]|].
-      (* unnamed struct in field position: clean makes it comparable, contradiction with CE *)
-      destruct (resolve_unnamed e t r R NM) as [Et _]. rewrite N in Et. subst t.
-      cbn [clean orb] in C. apply andb_prop in C as [C1 _]. congruence.
+    + cbn. split; [exact E'| apply (clean_st_fields _ _ _ C)].
 Qed.
 
 (* on clean positions the generator never refuses: no Unsup, for any values *)
